@@ -81,11 +81,20 @@ type storeEvent struct {
 	id  int // operation id
 }
 
+// wval is a weighted store value (implements cache.Value): the LRU facade accounts its Size.
+type wval struct {
+	Ver int
+	W   int
+}
+
+func (w wval) Size() int { return w.W }
+
 type store struct {
-	mu      sync.Mutex
-	m       map[string]int
-	nextVer int
-	log     []storeEvent
+	mu       sync.Mutex
+	weighted int // > 0: values are wval with weights 1..weighted
+	m        map[string]int
+	nextVer  int
+	log      []storeEvent
 	// failure pattern: consumed one decision per callback invocation
 	failAt func(cb string) bool
 	// gate: when set, the named callback invocation blocks on it
@@ -138,11 +147,22 @@ func (s *store) enter(cb, key string) (fail bool, exit func()) {
 	}
 }
 
-func (s *store) value(key string) (int, bool) {
+// wrap turns a stored version into the value the callbacks hand to the group.
+func (s *store) wrap(ver int) interface{} {
+	if s.weighted > 0 {
+		return wval{Ver: ver, W: 1 + (ver/1000*7+ver)%s.weighted}
+	}
+	return ver
+}
+
+func (s *store) value(key string) (interface{}, bool) {
 	s.mu.Lock()
 	defer s.mu.Unlock()
 	v, ok := s.m[key]
-	return v, ok
+	if !ok {
+		return nil, false
+	}
+	return s.wrap(v), true
 }
 
 func keyStr(k interface{}) string { return fmt.Sprintf("%T:%v", k, k) }
@@ -160,7 +180,7 @@ func (s *store) load(ctx context.Context, k interface{}) (interface{}, error) {
 	if !ok {
 		return nil, errNotFound
 	}
-	return v, nil
+	return s.wrap(v), nil
 }
 
 func (s *store) add(ctx context.Context, d interface{}) (interface{}, error) {
@@ -177,7 +197,7 @@ func (s *store) add(ctx context.Context, d interface{}) (interface{}, error) {
 	}
 	s.nextVer++
 	s.m[dd.key] = s.nextVer*1000 + dd.v%1000
-	return s.m[dd.key], nil
+	return s.wrap(s.m[dd.key]), nil
 }
 
 func (s *store) upd(ctx context.Context, d interface{}, e interface{}) (interface{}, error) {
@@ -194,7 +214,7 @@ func (s *store) upd(ctx context.Context, d interface{}, e interface{}) (interfac
 	}
 	s.nextVer++
 	s.m[dd.key] = s.nextVer*1000 + dd.v%1000
-	return s.m[dd.key], nil
+	return s.wrap(s.m[dd.key]), nil
 }
 
 func (s *store) upsert(ctx context.Context, d interface{}, e interface{}) (interface{}, error) {
@@ -208,7 +228,7 @@ func (s *store) upsert(ctx context.Context, d interface{}, e interface{}) (inter
 	defer s.mu.Unlock()
 	s.nextVer++
 	s.m[dd.key] = s.nextVer*1000 + dd.v%1000
-	return s.m[dd.key], nil
+	return s.wrap(s.m[dd.key]), nil
 }
 
 func (s *store) del(ctx context.Context, k interface{}) error {
@@ -379,6 +399,12 @@ func streamCase(k *engine.Case) {
 		k.Count("extreme_hash_keys", 1)
 	}
 	st.failAt = func(cb string) bool { return r.Intn(100) < rate }
+	if g.lruCap > 0 && r.Intn(2) == 0 {
+		// weighted values: some weigh more than the whole LRU capacity
+		st.weighted = g.lruCap + 2
+		k.Logf("values are weighted 1..%d (LRU capacity %d)", st.weighted, g.lruCap)
+		k.Count("streams_with_weighted_values", 1)
+	}
 	d := engine.NewDriver(Q, k)
 	defer func() {
 		sp := d.Spawn("stop", func() any { g.stop(k); return nil })
@@ -691,6 +717,12 @@ func gateCase(k *engine.Case) {
 	var queued []qd
 	for i := 0; i < nq; i++ {
 		op := []int{2, 3, 5, 6}[r.Intn(4)] // update, delete, upsert-then-load, upsert-then-renew: always reach the store
+		if gcb == "load" && i == 0 && r.Intn(2) == 0 {
+			// an add queued behind the get that is about to cache the key: by the time the add is
+			// applied the key is cached, so it must be refused as duplicate without touching the store
+			op = 1
+			k.Count("gate_add_behind_caching_get", 1)
+		}
 		id := 101 + i
 		// the op id is published when the callback runs: callbacks run serially on the worker,
 		// and every queued op carries its id in its data value
@@ -722,6 +754,20 @@ func gateCase(k *engine.Case) {
 		if !q.o.Done() {
 			k.Fail("operation-stuck", "queued %s never returned after the gate was opened: %v", opNames[q.op], Q.Describe())
 			return
+		}
+		if q.op == 1 {
+			res := q.o.Result().(opRes)
+			st.mu.Lock()
+			addCalls := st.calls["add"]
+			st.mu.Unlock()
+			if res.err != mux.ErrDupKey {
+				k.Fail("dup-add-not-rejected", "DoAdd(%v) was queued behind a DoGet that cached the key; when it was applied the key was cached, but it returned (%v, %v) instead of ErrDupKey", key, res.v, res.err)
+				return
+			}
+			if addCalls != 0 {
+				k.Fail("dup-add-touched-store", "DoAdd(%v) on a key cached by the preceding DoGet invoked the store's add callback %d time(s)", key, addCalls)
+				return
+			}
 		}
 	}
 	// order: the first store callback of each queued op must follow acceptance order.
